@@ -460,7 +460,7 @@ theorem provide_view {w w' : World} {s p : Nat} {funds : List (Nat × Nat)} {as0
   have pre : NonDecr (bal w P.a0 p, bal w P.a1 p, supply w0 P.lp)
       (netPool P.a0 (bal w0 P.a0 p) d0, netPool P.a1 (bal w0 P.a1 p) d1, supply w0 P.lp) :=
     C03.swap_nondecr (Nat.mul_le_mul i0 i1)
-  show NonDecr (bal w P.a0 p, bal w P.a1 p, supply w P.lp) (bal w1 P.a0 p, bal w1 P.a1 p, supply w1 P.lp)
+  show NonDecr (bal w P.a0 p, bal w P.a1 p, supply w P.lp) (bal w' P.a0 p, bal w' P.a1 p, supply w' P.lp)
   rw [hSeq, j0, j1, hsup]
   exact C03.nonDecr_trans pre nd
 
@@ -549,7 +549,7 @@ theorem direct_swap_view {w w' : World} {s p : Nat} {funds : List (Nat × Nat)} 
     · refine Or.inl ⟨g, ?_⟩
       rw [hs]
       exact Nat.le_of_eq (by simp [supply, htok])
-    · refine Or.inr (Or.inr ⟨_, ?_, rfl, hw⟩)
+    · refine Or.inr (Or.inr ⟨(p, bal w0 (.native d) p - amt, bal w0 (P.other (.native d)) p, amt), ?_, rfl, hw⟩)
       simp only [swapsOn, h0, hP]
       exact List.mem_singleton.mpr rfl
 
@@ -566,8 +566,8 @@ theorem hook_swap_view {w w' : World} {t s p amt : Nat} {offer : Asset} {a : Nat
   subst hof
   obtain ⟨_, _, c1, _, c5⟩ := C02.tokTransfer_effect hsp htr
   rcases swap_on_p_exact (w := w) hinv.distinct hsw c1 (fun b hb => c5 b p (Or.inl hb)) with ⟨g, hs⟩ | hw
-  · exact Or.inl ⟨g, by rw [hs, supply_tokTransfer htr]; exact Nat.le_refl _⟩
-  · refine Or.inr (Or.inr ⟨_, ?_, rfl, hw⟩)
+  · exact Or.inl ⟨g, by rw [hs, supply_tokTransfer htr]⟩
+  · refine Or.inr (Or.inr ⟨(p, bal w (.token t) p, bal w (P.other (.token t)) p, amt), ?_, rfl, hw⟩)
     simp only [swapsOn, hP]
     exact List.mem_singleton.mpr rfl
 
@@ -706,8 +706,8 @@ theorem view_cases {name : Asset → String} {w w' : World} {op : Op} {out : Out
     refine calm hinv (facExec_tr (S := fun z => z = s) (Mn := fun _ => False) (N := fun _ => True) h1 rfl ?_)
       (fun e => hsp e.symm) hF
     intro x0 x1 req c np nl e
-    obtain ⟨f1, f2⟩ := hv.fresh s f x0 x1 req c np nl (by rw [e])
-    exact ⟨f1, f2, trivial⟩
+    have e' : Op.factory s f m = .factory s f (.createPair x0 x1 req c np nl) := by rw [e]
+    exact ⟨freshOK_pair hv.fresh e', freshOK_tok hv.fresh e', trivial⟩
 
 /-! ### the invariant -/
 
@@ -869,5 +869,65 @@ theorem swap_product {name : Asset → String} {w w' : World} {op : Op} {out : O
   · exact g
   · exact absurd hs hns
   · exact absurd hw hnw
+
+/-! ### the statements of `Halo/Props/C03W.lean`, given that valid operations satisfy `FreshPair`
+
+Once `FreshOK` (hence `ValidOp.fresh`) also states `w.tok np = none`, `hb` below is
+`fun _ _ hv s f a0 a1 req c np nl e => (hv.fresh s f a0 a1 req c np nl e).2.2` and the three statements follow. -/
+
+section bridge
+variable (hb : ∀ (w : World) (op : Op), ValidOp w op → FreshPair w op)
+include hb
+
+theorem freshPairRun_of {name : Asset → String} : ∀ (ops : List Op) (w : World), ValidRun name w ops →
+    FreshPairRun name w ops
+  | [], _, _ => trivial
+  | op :: rest, w, hv => by
+    simp only [ValidRun] at hv
+    simp only [FreshPairRun]
+    exact ⟨hb w op hv.1, freshPairRun_of rest _ hv.2⟩
+
+theorem step_nondecr_of {name : Asset → String} {w w' : World} {op : Op} {out : Out} {p : Nat} {a0 a1 : Asset}
+    {lp : Nat} (hinv : PairInv w p a0 a1 lp) (hv : ValidOp w op) (h : exec name w op = .ok (w', out)) :
+    PairInv w' p a0 a1 lp ∧ (NonDecr (viewOf w p a0 a1 lp) (viewOf w' p a0 a1 lp) ∨ WindowedOn w op p) :=
+  step_nondecr' (hb w op hv) hinv hv h
+
+theorem history_nondecr_of {name : Asset → String} {p : Nat} {a0 a1 : Asset} {lp : Nat} (ops : List Op) (w : World)
+    (hinv : PairInv w p a0 a1 lp) (hv : ValidRun name w ops) (hnw : NoWindowRun name p w ops) :
+    PairInv (run name w ops) p a0 a1 lp ∧
+    NonDecr (viewOf w p a0 a1 lp) (viewOf (run name w ops) p a0 a1 lp) :=
+  history_nondecr' ops w hinv hv (freshPairRun_of hb ops w hv) hnw
+
+theorem supply_stays_positive_of {name : Asset → String} {p : Nat} {a0 a1 : Asset} {lp : Nat} (ops : List Op)
+    (w : World) (hinv : PairInv w p a0 a1 lp) (hv : ValidRun name w ops) (hpos : 0 < supply w lp) :
+    0 < supply (run name w ops) lp :=
+  supply_stays_positive' ops w hinv hv (freshPairRun_of hb ops w hv) hpos
+
+end bridge
+
+end Halo.C03W
+
+namespace Halo.C03W
+open Halo
+
+/-- `ValidOp` now carries the full freshness of newly allocated addresses (`FreshOK` includes `w.tok np = none`) -/
+theorem freshPair_of_valid (w : World) (op : Op) (hv : ValidOp w op) : FreshPair w op :=
+  fun s f a0 a1 req c np nl e => (hv.fresh s f a0 a1 req c np nl e).2.2
+
+theorem step_nondecr {name : Asset → String} {w w' : World} {op : Op} {out : Out} {p : Nat} {a0 a1 : Asset} {lp : Nat}
+    (hinv : PairInv w p a0 a1 lp) (hv : ValidOp w op) (h : exec name w op = .ok (w', out)) :
+    PairInv w' p a0 a1 lp ∧ (NonDecr (viewOf w p a0 a1 lp) (viewOf w' p a0 a1 lp) ∨ WindowedOn w op p) :=
+  step_nondecr_of freshPair_of_valid hinv hv h
+
+theorem history_nondecr {name : Asset → String} {p : Nat} {a0 a1 : Asset} {lp : Nat} (ops : List Op) (w : World)
+    (hinv : PairInv w p a0 a1 lp) (hv : ValidRun name w ops) (hnw : NoWindowRun name p w ops) :
+    PairInv (run name w ops) p a0 a1 lp ∧
+    NonDecr (viewOf w p a0 a1 lp) (viewOf (run name w ops) p a0 a1 lp) :=
+  history_nondecr_of freshPair_of_valid ops w hinv hv hnw
+
+theorem supply_stays_positive {name : Asset → String} {p : Nat} {a0 a1 : Asset} {lp : Nat} (ops : List Op) (w : World)
+    (hinv : PairInv w p a0 a1 lp) (hv : ValidRun name w ops) (hpos : 0 < supply w lp) :
+    0 < supply (run name w ops) lp :=
+  supply_stays_positive_of freshPair_of_valid ops w hinv hv hpos
 
 end Halo.C03W
